@@ -57,7 +57,8 @@ theorem SubstCert.fw_agree : Agree ct v' (vmOf h c m sh map z neg prim an' v') :
     simp [portVal, inPorts_idxOf ct.shape ct.ioNodup k inn hinn, hll]
 
 /-- the labelling read off the result is consistent for the implementation -/
-theorem SubstCert.fw_cons (hc' : ConsN h' z neg prim an' v') :
+theorem SubstCert.fw_cons (S : Nat → Prop) (hS : ∀ s, S s → s < h.net.nodes.size ∧ s ≠ c)
+    (hc' : ConsOff h' S z neg prim an' v') :
     ConsN (cutIns m (deadLine h c m sh)) z neg prim (anmOf h c m sh map z an' v') (vmOf h c m sh map z neg prim an' v') := by
   intro i hi
   rw [cutIns_lsize] at hi
@@ -76,7 +77,14 @@ theorem SubstCert.fw_cons (hc' : ConsN h' z neg prim an' v') :
       have hv : vmOf h c m sh map z neg prim an' v' i = v' (h.net.lines.size + t) := by
         simp only [vmOf, vm0Of, hcp, Bool.true_or, if_true]
         rw [← e, newOf_getElem t ht]
-      rw [hv, hc' _ hlt]
+      have hnS : ¬ S (h'.net.line (h.net.lines.size + t)).driver := by
+        have hdrv : (h'.net.line (h.net.lines.size + t)).driver = xd := by rw [hline]
+        rw [hdrv]; intro hs
+        have h3 := hS _ hs
+        rcases ct.mapGe _ xd hmd with e | e
+        · exact h3.2 e
+        · omega
+      rw [hv, hc' _ hlt hnS]
       exact ct.eq_line z neg prim an' v' _ _ (ct.fw_agree z neg prim an' v') (ct.fw_hA z an' v') (ct.fw_hP z an' v')
         _ i xd hmd (by rw [hline]) (by rw [hline])
     | none =>
@@ -108,20 +116,31 @@ theorem SubstCert.fw_cons (hc' : ConsN h' z neg prim an' v') :
               simp [vmOf, this]
 
 /-- … and the lines at the output pins of the instance carry what the output lines of the implementation carry -/
-theorem SubstCert.fw_outs (hc' : ConsN h' z neg prim an' v') (k il ll : Nat) (hk : sh.outLines[k]? = some il)
+theorem SubstCert.fw_outs (S : Nat → Prop) (hS : ∀ s, S s → s < h.net.nodes.size ∧ s ≠ c)
+    (hc' : ConsOff h' S z neg prim an' v') (k il ll : Nat) (hk : sh.outLines[k]? = some il)
     (hll : instOut h c k = some ll) : vmOf h c m sh map z neg prim an' v' il = v' ll := by
   have hlt : ll < h'.net.lines.size := by
     have := (ct.hwf.fwdOut c ct.hc _ ll hll).1
     rw [ct.lsize]; omega
-  rw [hc' ll hlt]
+  have hnS : ¬ S (h'.net.line ll).driver := by
+    obtain ⟨_, d, _, _, htg, hd, _⟩ := ct.outWire k ll hll
+    obtain ⟨k', hk'⟩ := outTarget_map htg
+    rw [hd]; intro hs
+    have h3 := hS _ hs
+    rcases ct.mapGe k' d hk' with e | e
+    · exact h3.2 e
+    · omega
+  rw [hc' ll hlt hnS]
   exact (ct.eq_outline z neg prim an' v' _ _ (ct.fw_agree z neg prim an' v') (ct.fw_hA z an' v') (ct.fw_hP z an' v')
-    (ct.fw_cons z neg prim an' v' hc') k il ll hk hll).symm
+    (ct.fw_cons z neg prim an' v' S hS hc') k il ll hk hll).symm
 
 /-- the host part of a consistent labelling of the result satisfies every equation of the host outside the cell -/
-theorem SubstCert.fw_hole (hc' : ConsN h' z neg prim an' v') : ConsHole h c z neg prim an' v' := by
-  intro l hl hd
+theorem SubstCert.fw_hole (S : Nat → Prop) (hc' : ConsOff h' S z neg prim an' v') :
+    ConsOff h (fun d => S d ∨ d = c) z neg prim an' v' := by
+  intro l hl hd0
+  have hd : (h.net.line l).driver ≠ c := fun e => hd0 (Or.inr e)
   have hlt : l < h'.net.lines.size := by rw [ct.lsize]; omega
-  rw [hc' l hlt]
+  rw [hc' l hlt (by rw [(ct.drvFrame l hl hd).1]; exact fun hs => hd0 (Or.inl hs))]
   exact ct.eq_hostline z neg prim an' an' v' v' (fun _ _ => rfl) (fun _ _ _ => rfl) l hl hd
 
 end cert
